@@ -27,7 +27,8 @@ import (
 //          x hex digit; p printable ASCII except quotes/backslash/$/{ ;
 //          I / j first / later byte of a name (incl. >= 0x80); q string-body byte other than
 //          quotes, backslash, '$', '{'; h any byte except '<';
-//          z 'Z' or 'z'; n any byte except \n and \r; c any byte except '*' '/' '?' '>' \n \r
+//          z 'Z' or 'z'; n any byte except \n and \r; c any byte except '*' '/' '?' '>' \n \r;
+//          k any byte except \n \r '?'; e any byte except \n \r
 // BuildInput returns the buffer and, per byte, whether it belongs to a hole.
 
 func classOK(c byte, b byte) bool {
@@ -64,6 +65,10 @@ func classOK(c byte, b byte) bool {
 		return And(b != '\n', b != '\r')
 	case 'c':
 		return And(And(And(b != '*', b != '/'), And(b != '?', b != '>')), And(b != '\n', b != '\r'))
+	case 'k': // byte inside a one-line comment that cannot start a close tag
+		return And(And(b != '\n', b != '\r'), b != '?')
+	case 'e': // last byte of a one-line comment that is ended by a close tag ('?' and '>' included)
+		return And(b != '\n', b != '\r')
 	}
 	return false
 }
